@@ -112,6 +112,13 @@ def gen_cases(ctx):
         fs = files_of(random_forest(n, ctx.rng), ctx.rng)
         cases.append("tree %s %d 7 free -" % (fs, 1 + ctx.rng.below(2)))
         ctx.count("free-7-workers n=%d" % n)
+    # wide stars under free-running workers: many chunks link their class to ONE parent at the same time
+    # (lost updates on the parent's child list and duplicate parents only show under real contention)
+    for k in range(12 if quick else 300):
+        n = 40 + ctx.rng.below(120)
+        kids = ",".join("aKid%d:%s:-" % (i, recase("aStar", ctx.rng)) for i in range(n))
+        cases.append("tree aStar:-:-,%s 1 7 free -" % kids)
+        ctx.count("free-7-workers star")
     return cases, ncorpus, nexh
 
 
@@ -231,7 +238,9 @@ def run(ctx):
         metas.append(m)
         answers.append(" ".join(w for w in a.split(" ") if not w.startswith("use")))
         uses.append([w for w in a.split(" ") if w.startswith("use")])
-    model = ctx.run_driver([driver_line("tree", c, m.get("order")) for c, m in zip(cases, metas)])
+    # the step-by-step model is cubic in the number of files: for the wide stars (free-running, no forced schedule to follow) the
+    # model's answer is the specification's (Props/C13: every schedule gives the declared relation)
+    model = ctx.run_driver([driver_line("treespec" if " aStar:" in c else "tree", c, m.get("order")) for c, m in zip(cases, metas)])
     spec = ctx.run_driver([driver_line("treespec", c, m.get("order")) for c, m in zip(cases, metas)])
     atomic_src = "gocAtomic=True" in ctx.extract_info.get("E10TreeGoc", "")
     # tie: the lock the harness finds held at the yield point must be what the translator read
